@@ -72,6 +72,14 @@ Theorem C19_unmapped_outputs_plain : forall specs inputs outputs li ds,
 Proof. exact unmapped_outputs_plain. Qed.
 Print Assumptions C19_unmapped_outputs_plain.
 
+(* the coordinates of the merged Dataset are exactly (by name) the coordinates of its labelled arrays *)
+Theorem C19_dataset_coords_union : forall ds,
+  (forall a c, In a (ds_arrays ds) -> In c (da_coords a) ->
+     exists c', In c' (ds_coords ds) /\ co_name c' = co_name c)
+  /\ (forall c', In c' (ds_coords ds) -> exists a, In a (ds_arrays ds) /\ In c' (da_coords a)).
+Proof. exact ds_coords_union. Qed.
+Print Assumptions C19_dataset_coords_union.
+
 (* selecting by coordinate value.  `sel_label` is the specification of label based selection on a
    one-dimensional coordinate (look the value up, slice the variable at the position found); the lookup
    itself is xarray's (observed by the harness on every coordinate value, not modelled).
